@@ -184,7 +184,13 @@ def check_sample(ctx, case, ref, gt, sample, drawn):
 def check_case(ctx, case):
     import pygamma_agreement as pa
     install_spy()
-    sampler = pa.ShuffleContinuumSampler(pivot_type=case["pivot_type"])
+    # the pivot type as a user's program holds it: a literal, a string built at run time (read from a file, argv, JSON:
+    # equal to the literal but another object), or a numpy string
+    pt, form = case["pivot_type"], case.get("pivot_str", "literal")
+    pt = {"literal": "int_pivot" if pt == "int_pivot" else "float_pivot", "built": "".join(list(pt)),
+          "np.str_": np.str_(pt)}[form]
+    ctx.observe("pivot_str", form)
+    sampler = pa.ShuffleContinuumSampler(pivot_type=pt)
     np.random.seed(case["np_seed"])
     _check_reference(ctx, case, sampler, case["continuum"], case["ground_truth"])
     if case.get("then"):
@@ -278,6 +284,7 @@ def gen_case(ctx):
         return None
     case = {"continuum": cspec, "ground_truth": gt, "pivot_type": rng.choice(["int_pivot", "float_pivot"]),
             "reset_bounds": rng.random() < 0.5, "np_seed": rng.randrange(2 ** 31),
+            "pivot_str": rng.choice(["literal", "built", "built", "np.str_"]),
             "draws": 30 if ctx.tier == "quick" else 100}
     if rng.random() < 0.25:
         case["threads"] = rng.choice([2, 4])
